@@ -8,6 +8,9 @@ mod wire;
 
 use std::io::{BufRead, BufWriter, Write};
 
+#[global_allocator]
+static A: run::Counting = run::Counting;
+
 fn main() {
     std::panic::set_hook(Box::new(|_| {}));
     let args: Vec<String> = std::env::args().collect();
@@ -22,6 +25,12 @@ fn main() {
             let x: u8 = std::hint::black_box(255);
             let oc = std::panic::catch_unwind(|| std::hint::black_box(x + std::hint::black_box(1))).is_err();
             writeln!(out, "debug_assertions={} overflow_checks={}", cfg!(debug_assertions), oc).unwrap();
+        }
+        "sizes" => {
+            for (n, s) in gen::entry_sizes() {
+                let l: Vec<String> = s.iter().map(|x| format!("{x:x}")).collect();
+                writeln!(out, "{n} {}", if l.is_empty() { "-".to_string() } else { l.join(",") }).unwrap();
+            }
         }
         "regions" => {
             for line in input.lines() {
